@@ -462,12 +462,44 @@ def linear_list_params(tree, cls):
     return out
 
 
+ALLOWED_DECORATORS = {"staticmethod", "property"}
+
+
+def binds(stmt, name):
+    """does this statement of a module / class body (re)bind `name`?"""
+    if isinstance(stmt, (ast.FunctionDef, ast.AsyncFunctionDef, ast.ClassDef)):
+        return stmt.name == name
+    if isinstance(stmt, (ast.Import, ast.ImportFrom)):
+        return any((a.asname or a.name.split(".")[0]) == name or a.name == "*" for a in stmt.names)
+    return any(isinstance(x, ast.Name) and x.id == name and isinstance(x.ctx, (ast.Store, ast.Del)) for x in ast.walk(stmt))
+
+
 def func_node(tree, qual):
+    """the `def` a qualified name denotes. The name must be bound exactly once in its module / class body, by a `def`
+    (a later `f = cache(f)`, a second `def f`, a star import after it would make the text translated here not the
+    function that runs), and carry no decorator other than `staticmethod` / `property` (a decorator replaces the
+    function by whatever it returns). Otherwise the function is reported as outside the fragment."""
     body, node = tree.body, None
-    for p in qual.split("."):
-        node = next((n for n in body if isinstance(n, (ast.FunctionDef, ast.ClassDef)) and n.name == p), None)
-        if node is None:
+    parts = qual.split(".")
+    if len(parts) == 2:     # `Class.method = …` / `del Class.method` / `setattr(Class, "method", …)` anywhere in the module
+        for x in ast.walk(tree):
+            if (isinstance(x, ast.Attribute) and isinstance(x.ctx, (ast.Store, ast.Del)) and x.attr == parts[1]
+                    and isinstance(x.value, ast.Name) and x.value.id == parts[0]):
+                raise Untranslatable(f"{qual}: assigned from outside the class body (line {x.lineno})")
+            if (isinstance(x, ast.Call) and isinstance(x.func, ast.Name) and x.func.id in ("setattr", "delattr") and len(x.args) >= 2
+                    and isinstance(x.args[0], ast.Name) and x.args[0].id == parts[0]
+                    and not (isinstance(x.args[1], ast.Constant) and x.args[1].value != parts[1])):
+                raise Untranslatable(f"{qual}: {x.func.id}({parts[0]}, …) in the module (line {x.lineno})")
+    for p in parts:
+        cands = [n for n in body if binds(n, p)]
+        if not cands:
             return None
+        if len(cands) != 1 or not isinstance(cands[0], (ast.FunctionDef, ast.ClassDef)):
+            raise Untranslatable(f"{qual}: `{p}` is bound {len(cands)} times in its scope (lines {[c.lineno for c in cands]})")
+        node = cands[0]
+        for d in node.decorator_list:
+            if not (isinstance(d, ast.Name) and d.id in ALLOWED_DECORATORS and isinstance(node, ast.FunctionDef)):
+                raise Untranslatable(f"{qual}: decorator `{ast.unparse(d)}` on `{p}` (line {node.lineno})")
         body = node.body
     return node
 
@@ -487,8 +519,13 @@ def main():
         path = os.path.join(REPO_SRC, "pyubx2", fname)
         if fname not in trees:
             trees[fname] = ast.parse(open(path, newline="").read().replace("\r\n", "\n"))
-        node = func_node(trees[fname], qual)
         ident = lean_ident(qual)
+        try:
+            node = func_node(trees[fname], qual)
+        except Untranslatable as e:
+            facts["untranslatable"][qual] = str(e)
+            out.append(f"/-- `{qual}`: outside the translatable fragment: {e} -/\ndef {ident} : Fn := {{ params := [], body := [] }}")
+            continue
         if node is None:
             facts["untranslatable"][qual] = "function not found"
             out.append(f"/-- {qual}: NOT FOUND in the working tree -/\ndef {ident} : Fn := {{ params := [], body := [] }}")
